@@ -307,6 +307,7 @@ class FnContract:
     arms: list = field(default_factory=list)       # (props, keywords): properties charged only when a matching match-arm fails
     implicit: list = field(default_factory=list)   # property ids charged for implicit obligations
     external_body: bool = False
+    trace: tuple = None                            # (ret name, ghost local, type, init): ghost output trace of a `()` function
 
 
 _CL = re.compile(r"^(requires|ensures|decreases|invariant|invariant_except_break|recommends)\s+(\w+)\s*\[([^\]]*)\]\s*:\s*(.*)$")
@@ -373,10 +374,14 @@ def parse_contracts(path):
             if s == "external_body":
                 cur.external_body = True
                 continue
+            m = re.match(r"trace\s+(\w+)\s+(\w+)\s*:\s*(.*?)\s*=\s*(.*)$", s)
+            if m:
+                cur.trace = (m.group(1), m.group(2), m.group(3), m.group(4))
+                continue
             if s == "prologue:":
                 mode = "prologue"
                 continue
-            m = re.match(r"ghost\s+(after\s+let(?:\s+\w+)?|wrap\s+selfcall|wrap\s+method\s+\w+|after\s+call\s+\w+|loop_pre|loop_tail|loop_post)\s*#(\d+)(?:\s+as\s+(\w+))?\s*:$", s)
+            m = re.match(r"ghost\s+(after\s+let(?:\s+\w+)?|wrap\s+selfcall|wrap\s+method\s+\w+|wrap\s+call\s+\w+|epilogue|after\s+call\s+\w+|loop_pre|loop_tail|loop_post)\s*#(\d+)(?:\s+as\s+(\w+))?\s*:$", s)
             if m:
                 g = {"kind": " ".join(m.group(1).split()), "k": int(m.group(2)), "name": m.group(3) or "", "text": ""}
                 cur.ghosts.append(g)
@@ -593,6 +598,21 @@ def find_selfcalls(body):
     return out
 
 
+def find_fncalls(body, name):
+    """(start_idx, close_paren_idx) of every plain call `name(`...`)` (not a method, not a path segment) in source order"""
+    out = []
+    sg = [i for i, t in enumerate(body) if t.kind not in L.TRIVIA]
+    for p, i in enumerate(sg):
+        t = body[i]
+        if t.kind == "ident" and t.text == name and p + 1 < len(sg) and body[sg[p + 1]].kind == "punct" and body[sg[p + 1]].text == "(":
+            if p > 0 and body[sg[p - 1]].kind == "punct" and body[sg[p - 1]].text in (".", "::"):
+                continue
+            if p > 0 and body[sg[p - 1]].kind == "ident" and body[sg[p - 1]].text == "fn":
+                continue
+            out.append((i, L.match_close(body, sg[p + 1])))
+    return out
+
+
 def find_methodcalls(body, name):
     """(start_idx, close_paren_idx) of every `<receiver chain>.name(`...`)` call in source order"""
     out = []
@@ -713,6 +733,14 @@ def emit_fn(em, fid, ftoks, fn_kw, body_open, body_close, contract, indent="    
         em.w(L.text(ftoks[a:e]))
         em.w(f"{A_OPEN}){A_CLOSE}")
         em.w(L.text(ftoks[e:body_open]).rstrip())
+    elif c is not None and c.trace is not None:
+        # ghost output trace: a function without a return value gets a ghost (erased) result
+        if sp["ret"] is not None:
+            raise ExtractError(f"{fid}: `trace` needs a function without a return type")
+        cut = sp["where"][0] if sp["where"] is not None else body_open
+        em.w(L.text(ftoks[:cut]).rstrip())
+        em.w(f" {A_OPEN}-> ({c.trace[0]}: Ghost<{c.trace[2]}>){A_CLOSE} ")
+        em.w(L.text(ftoks[cut:body_open]).rstrip())
     else:
         em.w(L.text(ftoks[:body_open]).rstrip())
     em.w("\n")
@@ -720,6 +748,8 @@ def emit_fn(em, fid, ftoks, fn_kw, body_open, body_close, contract, indent="    
         _emit_clauses(em, fid, "fn", c.clauses, indent + "    ")
     em.w(indent + "{")
     body = ftoks[body_open + 1:body_close]
+    if c is not None and c.trace is not None and force_external is None and not c.external_body:
+        em.w(f"\n{indent}    {A_OPEN}let ghost mut {c.trace[1]}: {c.trace[2]} = {c.trace[3]};{A_CLOSE}")
     if c is not None and c.prologue.strip():
         em.w(f"\n{indent}    {A_OPEN}")
         em.clause(f"{fid}::prologue", _indent_block(c.prologue.rstrip("\n"), indent + "    "))
@@ -734,6 +764,12 @@ def emit_fn(em, fid, ftoks, fn_kw, body_open, body_close, contract, indent="    
     else:
         # annotate closures and loops inside the body
         em.w(_annotate_body(em, fid, body, c, indent))
+        if c is not None and c.trace is not None:
+            em.w(f"{A_OPEN};\n")
+            for gi, g in enumerate(c.ghosts):
+                if g["kind"] == "epilogue":
+                    em.clause(f"{fid}::ghost{gi}", _indent_block(g["text"].rstrip("\n"), indent + "    "))
+            em.w(f"{indent}    Ghost({c.trace[1]})\n{indent}{A_CLOSE}")
     em.w("}\n")
     em.fn_lines.append((first_line, em.line - 1, fid))
 
@@ -843,6 +879,12 @@ def _annotate_body(em, fid, body, c, indent):
                     raise LostAnchor(f"{fid}: ghost anchor {g['kind']}#{k} but the body has {len(mc)} such calls (lost anchor)")
                 ins_before.setdefault(mc[k][0], []).insert(0, ("raw", f"{A_OPEN}{{ let {g['name']} = {A_CLOSE}"))
                 ins_after.setdefault(mc[k][1], []).append(("wrapclose", (gi, g)))
+            elif g["kind"].startswith("wrap call "):
+                fc = find_fncalls(body, g["kind"].split()[2])
+                if k >= len(fc):
+                    raise LostAnchor(f"{fid}: ghost anchor {g['kind']}#{k} but the body has {len(fc)} such calls (lost anchor)")
+                ins_before.setdefault(fc[k][0], []).insert(0, ("raw", f"{A_OPEN}{{ let {g['name']} = {A_CLOSE}"))
+                ins_after.setdefault(fc[k][1], []).append(("wrapclose", (gi, g)))
             elif g["kind"].startswith("after call "):
                 nm = g["kind"].split()[2]
                 hits = []
